@@ -266,9 +266,7 @@ def call(f: Callable[[], Any]):
         if not armed:
             raise
         return ("err", NO_ANSWER)
-    except RecursionError:
-        raise
-    except Exception as e:  # noqa: BLE001 - every exception class is an observable
+    except Exception as e:  # noqa: BLE001 - every exception class is an observable (RecursionError too)
         return ("err", exc_name(e))
     finally:
         if armed:
